@@ -4,7 +4,9 @@ import (
 	"encoding/json"
 	"fmt"
 	"os"
+	"reflect"
 	"runtime"
+	"unsafe"
 	"strconv"
 	"strings"
 	"sync"
@@ -194,6 +196,62 @@ func goircGoroutines() (n int, dump string) {
 		}
 	}
 	return n, dump
+}
+
+// connGoroutines returns the goroutines that have a frame in a method of this
+// particular *Conn (the receiver pointer is printed in the stack trace), so
+// that leftovers of other scenarios in the same process are not counted.
+func connGoroutines(c *client.Conn) (n int, dump string, kinds map[string]int) {
+	ptr := fmt.Sprintf("(%p", c)
+	kinds = map[string]int{}
+	d := goroutineDump()
+	for _, g := range strings.Split(d, "\n\n") {
+		hit := false
+		for _, ln := range strings.Split(g, "\n") {
+			i := strings.Index(ln, "github.com/fluffle/goirc/client.(*Conn).")
+			if i < 0 || !strings.Contains(ln, ptr) {
+				continue
+			}
+			hit = true
+			name := ln[i+len("github.com/fluffle/goirc/client.(*Conn)."):]
+			if j := strings.IndexAny(name, "(."); j >= 0 {
+				name = name[:j]
+			}
+			kinds[name]++
+		}
+		if hit {
+			n++
+			dump += g + "\n\n"
+		}
+	}
+	return
+}
+
+// outQueue returns the client's current outgoing queue through reflection. It
+// is used for clean-up only (to release user goroutines the harness left
+// blocked in a send on a dead connection), never by an oracle; if the field
+// is ever renamed the clean-up is skipped.
+func outQueue(c *client.Conn) (q reflect.Value, ok bool) {
+	defer func() {
+		if recover() != nil {
+			ok = false
+		}
+	}()
+	f := reflect.ValueOf(c).Elem().FieldByName("out")
+	if !f.IsValid() || f.Kind() != reflect.Chan {
+		return reflect.Value{}, false
+	}
+	return reflect.NewAt(f.Type(), unsafe.Pointer(f.UnsafeAddr())).Elem(), true
+}
+
+// drainQueue empties q until pred() is true or the timeout expires.
+func drainQueue(q reflect.Value, timeout time.Duration, pred func() bool) {
+	deadline := time.Now().Add(timeout)
+	for !pred() && time.Now().Before(deadline) {
+		if _, ok := q.TryRecv(); !ok {
+			time.Sleep(50 * time.Microsecond)
+		}
+	}
 }
 
 func waitCond(timeout time.Duration, cond func() bool) bool {
